@@ -103,6 +103,10 @@ Whole == {
                                                     on |-> CmpE("!=", ColP(<<"x", "a">>), ColP(<<"y", "c">>))]]],
   [pos |-> "joinlimitparhash", q |-> [BaseQ EXCEPT !.limit = 1, !.from = [k |-> "join", type |-> "inner", kw |-> "PARALLEL HASH_JOIN", l |-> Table(<<"u">>, "y"), r |-> Table(<<"t">>, "x"),
                                                     on |-> CmpE("=", ColP(<<"x", "a">>), ColP(<<"y", "c">>))]]],
+  \* FROM dual: the document as the one row, at the top and inside a row-scoped subquery
+  [pos |-> "dualstar",  q |-> [BaseQ EXCEPT !.from = Dual]],
+  [pos |-> "dualitems", q |-> [BaseQ EXCEPT !.from = Dual, !.sel = <<I(Col("u"), ""), I(LN(2), "two"), I(Fn("first", <<Col("t")>>), "f"), Star>>]],
+  [pos |-> "dualsub",   q |-> SelQ(<<I(A, ""), I(Sub([BaseQ EXCEPT !.from = Dual]), "x"), I(Sub([BaseQ EXCEPT !.from = Dual, !.sel = <<I(S_, "t"), Star>>]), "y")>>, None)],
   [pos |-> "spin",     q |-> SelQ(<<I(A, ""), I(FnQ("spin", "concat", <<S_, X>>), "v"), I(FnQ("spinasync", "concat", <<S_, X>>), "w")>>, None)],
   [pos |-> "asyncmix", q |-> SelQ(<<I(FnQ("async", "concat", <<S_, X>>), "v"), I(A, ""), I(FnQ("async", "concat", <<A, X>>), "w")>>, None)] }
 
@@ -122,7 +126,7 @@ Plain(v) == CASE v.t \in {"null", "bool", "num", "str"} -> TRUE
               [] OTHER -> FALSE
 PlainOK == Ok => Plain(res)
 \* the meaning is a function of (query, document): a second evaluation gives the same value
-Deterministic == Done => res = RunQ(cs.q, cs.doc)
+Deterministic == Done => res = TopRun(cs.q, cs.doc)
 
 Export == Done => PrintT(ToJson([q |-> cs.q, doc |-> cs.doc, fam |-> cs.fam, form |-> cs.form, hist |-> hist, res |-> res,
                                  ties |-> (cs.q.k = "select" /\ cs.q.order # <<>> /\ HasStage("distinct") /\ HasTies(Stage("distinct"), cs.q.order))]))
